@@ -86,7 +86,15 @@ def run(ctx):
     nskel = 400 if ctx.tier == "quick" else 20000
     dbccheck.count_guard(ctx, PID, summ.get("total", -1), compared, need_skeleton=nskel, min_compared_ratio=0.95)
     ctx.min_evaluations = 9000 if ctx.tier == "quick" else 120000
-    for stream in ("corpus", "valid", "trunc-byte", "trunc-token", "confuse", "wellknown", "noheader", "boundary", "layout", "dupnames",
+    # (2b) the importer's outcome class and error kind against the extracted model of the importer (coq/C10/Import.v):
+    # the driver must have compared a fixed share of the inputs (a comparison that silently covers nothing is a failure)
+    imp = dbccheck.last_import
+    need_imp = 2000 if ctx.tier == "quick" else 25000
+    if imp.get("compared", 0) < need_imp or imp.get("ok", 0) < need_imp // 4 or imp.get("err", 0) < need_imp // 4:
+        ctx.violation("c09-import-model-count", "the comparison of ImportDBCFile with the model of the importer covered too little: %s "
+                      "(at least %d documents, a quarter accepted and a quarter refused, are expected)" % (imp, need_imp),
+                      {"import_comparison": imp}, found_input=False)
+    for stream in ("corpus", "valid", "trunc-byte", "trunc-token", "confuse", "wellknown", "noheader", "boundary", "layout", "dupnames", "impchecks",
                    "rangeforms", "errtok", "valtable", "codepoints", "mux", "random-bytes", "random-cps"):
         if summ["hist"].get(stream, 0) <= 0:
             ctx.violation("c09-harness-stream-missing", "the generator stream %s produced no input" % stream, {"hist": summ["hist"]}, found_input=False)
@@ -107,6 +115,18 @@ def run(ctx):
                 lines = [l for l in lines if l not in both_syn]
                 if not lines:
                     continue
+            if what in ("import-class", "import-error-kind"):
+                ids = [l.split(" ", 2)[1] for l in lines[:400]]
+                texts = dbccheck.texts_for_ids(cases, ids)
+                best = min(texts, key=lambda k: len(texts[k])) if texts else None
+                line = next((l for l in lines if best is not None and l.split(" ", 2)[1] == best), lines[0])
+                data = texts.get(best, b"")
+                ctx.violation("c09-" + what, "ImportDBCFile and the Coq model of the importer (coq/C10/Import.v, extracted) disagree on the "
+                              "%s of a parsed document (%d case(s)); shortest: %s" % (
+                                  "outcome (accepted / refused)" if what == "import-class" else "kind of error", len(lines), line[:500]),
+                              {"first": lines[:3], "input_hex": data.hex(), "input_text": data.decode("utf-8", "replace")[:2000],
+                               "how": "./check C09 --replay <this file> prints the implementation's outcome"}, found_input=True)
+                continue
             ctx.violation("c09-model-" + what, "the Coq model and the implementation disagree (%s, %d case(s)); the theorems of "
                           "Properties/C09.v no longer speak about this code; no crashing input was found: %s" % (what, len(lines), lines[0][:400]),
                           {"correspondence": what, "first": lines[:3]}, found_input=False)
@@ -146,6 +166,7 @@ def run(ctx):
         "skeleton_cases_compared": dbccheck.last_skeleton,
         "model_mismatches": mism,
         "model_mismatch_kinds": {k: len(v) for k, v in by_kind.items()},
+        "import_model_comparison": dbccheck.last_import,
         "failures": [h[0] for h, _ in summ["fails"]],
         "samples": samples or ["(see cases.txt in scratch)"],
         "exhaustive": False,
